@@ -337,6 +337,10 @@ func init() {
 			}
 		}
 	}
+	pend := "server-initiated end of a bidirectional gRPC / gRPC-web call: the handler returns (OK or Aborted, with or without one reply) while its own goroutine waits in RecvMsg and the client keeps its sending side open (body Read blocks until Close); 0..1 request messages; every interleaving within the preemption bound; the call must complete, the status must reach the client and the pending receive must be released with an error"
+	for _, id := range []string{"C09", "C15"} {
+		ext(id, pend, HarnessSpec{Name: "VerifH_grpc_pending_recv", Concurrent: true, Covers: []string{"grpc", "web", "failing"}})
+	}
 	wkt := "well-known-type parameters (google.protobuf wrappers, FieldMask, Duration, Timestamp) through the real parseQueryParams / parseParam / quote / params.set: the empty text for each of 10 types, a menu of 40 boundary texts (non-BMP strings, 32/64-bit limits, duration range and Go-style units, leap days, RFC 3339 range), symbolic texts of 1..3 (quick) / 1..4 (thorough) bytes for StringValue, BoolValue, Int32Value / UInt32Value, BytesValue, FieldMask; protojson's scalar forms modelled (model_wkt.go), generated messages seen through a fake reflection view"
 	for _, id := range []string{"C03", "C09", "C01"} {
 		ext(id, wkt, HarnessSpec{Name: "VerifH_params_wkt", Covers: []string{"empty-value", "menu-accepted", "menu-rejected", "string-wrapper", "bool-wrapper", "int-wrapper", "int-wrapper-rejected", "bytes-wrapper", "fieldmask", "fieldmask-rejected"}})
